@@ -88,8 +88,8 @@ Definition prop_kind (id : N) : option pkind :=
   if (id =? 1) || (id =? 23) || (id =? 25) || (id =? 36) || (id =? 37) || (id =? 40) || (id =? 41) || (id =? 42) then Some KBool
   else if (id =? 19) || (id =? 33) || (id =? 34) || (id =? 35) then Some KU16
   else if (id =? 2) || (id =? 17) || (id =? 24) || (id =? 39) then Some KU32
-  else if (id =? 3) || (id =? 8) || (id =? 18) || (id =? 21) || (id =? 22) || (id =? 26) || (id =? 28) || (id =? 31) then Some KStr
-  else if id =? 9 then Some KBin
+  else if (id =? 3) || (id =? 8) || (id =? 18) || (id =? 21) || (id =? 26) || (id =? 28) || (id =? 31) then Some KStr
+  else if (id =? 9) || (id =? 22) then Some KBin                   (* CorrelationData, AuthData: propertyReadBinary *)
   else None.
 
 Definition TOPIC_ALIAS_INVALID : err := ECode 148.
@@ -168,14 +168,18 @@ Fixpoint props_loop (fuel : nat) (ptype : N) (p : props) (b : list N) : res prop
 
 (* Properties.Unpack(bufr, packetType) on a fresh &Properties{} *)
 Definition props_unpack (ptype : N) (b : list N) : res (props * list N) :=
-  do '(length, r) <- read_varint b;
-  if length =? 0 then Ok (props_empty, r)
-  else
-    let '(pb, r') := buf_next length r in                    (* bufr.Next(length) clamps *)
-    do p <- props_loop (S (List.length pb)) ptype props_empty pb;
-    if is_some (ps_get 22 (pr_single p)) && negb (is_some (ps_get 21 (pr_single p)))
-    then Err MALFORMED                                       (* AuthData without AuthMethod *)
-    else Ok (p, r').
+  match b with
+  | [] => Ok (props_empty, [])                               (* bufr.Len() == 0: Property Length omitted *)
+  | _ =>
+      do '(length, r) <- read_varint b;
+      if length =? 0 then Ok (props_empty, r)
+      else
+        let '(pb, r') := buf_next length r in                (* bufr.Next(length) clamps *)
+        do p <- props_loop (S (List.length pb)) ptype props_empty pb;
+        if is_some (ps_get 22 (pr_single p)) && negb (is_some (ps_get 21 (pr_single p)))
+        then Err MALFORMED                                   (* AuthData without AuthMethod *)
+        else Ok (p, r')
+  end.
 
 (* UnpackWillProperties: no ValidateID; only the will properties are known *)
 Definition will_prop_known (id : N) : bool :=
